@@ -54,6 +54,32 @@ def position_program(v, w):
             "if v && w { 20 } else { 21 }\n")
 
 
+def tail_programs(v):
+    """a truthiness test as the LAST thing in the code: its jump targets are the very end of the instructions"""
+    pre = f"let obs = [];\nfn probe(x) {{ push(obs, x); x }}\nlet v = {v};\n"
+    return [pre + "while v { push(obs, 1); break; }\n",
+            pre + "let n = 0;\nwhile !v && n < 2 { n = n + 1; push(obs, n); }\n",
+            pre + "if v { push(obs, 2); }\n",
+            pre + "if v { push(obs, 3); } else { push(obs, 4); }\n",
+            pre + "v && probe(5)\n",
+            pre + "v || probe(6)\n",
+            pre + "if !v { push(obs, 7); }\n"]
+
+
+PAD = "".join("[" + ", ".join(str(k) for k in range(100)) + "];\n" for _ in range(125))      # about 38 KB of bytecode
+
+
+def far_program(v, w):
+    """the same positions beyond byte offset 32768 of the main code: jump operands with the top bit set"""
+    return ("let obs = [];\nfn probe(x) { push(obs, x); x }\n" + PAD +
+            f"let v = {v};\nlet w = {w};\n"
+            "let r1 = v && probe(1);\nlet r2 = v || probe(2);\npush(obs, [r1, r2]);\n"
+            "if v { push(obs, 10); } else { push(obs, 11); }\n"
+            "let n = 0;\nwhile v { n = n + 1; if n > 0 { break; } }\npush(obs, n);\n"
+            "push(obs, if w { 1 } else { 2 });\n"
+            "v || w\n")
+
+
 NUM_REPS = ["0", "1", "-1", "0.0", "-0.0", "1.5", "1e-320", "2.5e-16", "(1e308 * 10 - 1e308 * 10)", "(1e308 * 10)", "9223372036854775807", "byte(0)", "byte(7)"]
 
 
@@ -73,8 +99,12 @@ def cases(ctx):
     out = []
     srcs = [position_program(v, w) for v in SRC_REPS for w in SRC_REPS]
     srcs += [negated_comparison_program(v, w) for v in NUM_REPS for w in NUM_REPS]
+    for v in SRC_REPS:
+        srcs += tail_programs(v)
+    far = ["0", "1", "\"\"", "\"a\"", "null", "[]", "0.0", "true"]
+    srcs += [far_program(v, w) for v in far for w in ("0", "7")]
     for l, s in zip(lang_lines(ctx, srcs), srcs):
-        out.append(Case(l, ("positions",), extra={"src": s}))
+        out.append(Case(l, ("positions",), extra={"src": s if len(s) < 4000 else "(padding) " + s[-400:]}))
     for v in REPS:
         out.append(Case(f"un Bang {v}", ("bang",)))
         out.append(Case(f"eqhash {v} {v}", ("is_falsey",)))
